@@ -18,13 +18,30 @@ def accumulator_targets(rng, r, s, n):
         w = [rng.below(1 << 32), (-sw[1]) & 0xffffffff, 0xffffffff - sw[2], rng.below(1 << 32)]
         out.append(top | sum(x << (32 * i) for i, x in enumerate(w)))
     out += list(range(0, 8)) + [P - k for k in range(1, 6)]
-    while len(out) < n:
+    # extreme 26-bit limb patterns: all-zero / all-one limbs, and limbs within a few dozen of 0 or 2^26 (the size of a deferred carry)
+    pats = []
+    while len(pats) < n:
         t = 0
         for i in range(5):
-            c = rng.below(9)
-            t |= (rng.below(1 << 26) if c >= 7 else PATS[c]) << (26 * i)
-        out.append(t)
-    return [t % P for t in out[:n]]
+            c = rng.below(12)
+            if c >= 10:
+                limb = rng.below(1 << 26)
+            elif c == 9:
+                limb = rng.below(64)
+            elif c == 8:
+                limb = 0x3ffffff - rng.below(64)
+            else:
+                limb = PATS[c % 7]
+            t |= limb << (26 * i)
+        pats.append(t)
+    # interleave, so that every prefix of the list contains both kinds
+    mixed = []
+    for i in range(max(len(out), len(pats))):
+        if i < len(pats):
+            mixed.append(pats[i])
+        if i < len(out):
+            mixed.append(out[i])
+    return [t % P for t in mixed[:n]]
 
 
 def solve_last_block(r, acc_prev, target, after=()):
